@@ -184,6 +184,14 @@ func c06Positions() []position {
 	add("cmp-chain-string-third", "t := vs == \"a\" != $X", "bool")
 	add("cmp-chain-in-cond", "if vi > 0 == $X {\n}", "bool")
 	add("not", "t := !$X", "bool")
+	// "!" binds tighter than a comparison: !x == 0 negates x, whatever follows
+	add("not-then-equal-int", "t := !$X == 0")
+	add("not-then-greater-int", "t := !$X > 0")
+	add("not-then-equal-string", "t := !$X == \"a\"")
+	add("not-then-equal-bool", "t := !$X == true", "bool")
+	add("not-then-compare-in-condition", "if !$X == 0 {\n}")
+	add("not-then-compare-in-loop", "for !$X >= 3 {\n\tbreak\n}")
+	add("not-then-compare-right-of-or", "t := vb || !$X != 2")
 	add("cond-if", "if $X {\n}", "bool")
 	add("cond-else-if", "if vb {\n} else if $X {\n}", "bool")
 	add("cond-for", "for $X {\n\tbreak\n}", "bool")
@@ -408,6 +416,12 @@ func c06Cells(thorough bool) []c06Cell {
 		"fixed/assign-count":          {"vi, vj = 1\n", "reject"},
 		"fixed/return-too-many":       {"func r() int {\nreturn 1, 2\n}\n", "reject"},
 		"fixed/return-too-few":        {"func r() (int, int) {\nreturn 1\n}\n", "reject"},
+		"fixed/value-list-with-program-call-second": {"t, u := 1, @echo(\"a\")\n", "reject"},
+		"fixed/value-list-with-program-call-first":  {"t, u := @echo(\"a\"), 1\n", "reject"},
+		"fixed/value-list-with-pipeline":            {"var t, u = @echo(\"b\") | @cat(), vi\n", "reject"},
+		"fixed/assign-list-with-program-call":       {"vs, vi = @echo(\"a\"), 1\n", "reject"},
+		"fixed/program-call-three-values-ok":        {"t, u, w := @echo(\"a\")\nprint(t, u, w)\n", "accept"},
+		"fixed/program-call-two-values":             {"t, u := @echo(\"a\")\n", "reject"},
 		"fixed/return-ok-two":         {"func r() (int, string) {\nreturn 1, \"a\"\n}\n", "accept"},
 		"fixed/write-too-few":         {"write(vs)\n", "reject"},
 		"fixed/write-too-many":        {"write(vs, vs, vb, vb)\n", "reject"},
